@@ -53,8 +53,35 @@ def splitRef (ws : List String) : List String × Option String :=
   | some l => if l.startsWith "ref=" then (ws.dropLast, some (l.drop 4).toString) else (ws, none)
   | none => (ws, none)
 
+/-- decimal text of an integer exactly as `std::to_string` prints it (no "+", no "-0", no leading zeros) -/
+def int? (s : String) : Option Int := do
+  let v ← s.toInt?
+  if toString v = s then some v else none
+
+/-- strips the memory-placement suffix `@<R|L><0-7><0-7>` (the model is placement independent); `none` = malformed -/
+def splitPlace (ws : List String) : Option (List String) :=
+  match ws.getLast? with
+  | some l =>
+    if l.startsWith "@" then
+      match l.toList with
+      | ['@', m, i, o] => if (m = 'R' ∨ m = 'L') ∧ '0' ≤ i ∧ i ≤ '7' ∧ '0' ≤ o ∧ o ≤ '7' then some ws.dropLast else none
+      | _ => if l.length = 4 then none else some ws
+    else some ws
+  | none => some ws
+
+def md5Step? (w : String) : Option Md5.Step :=
+  if w = "f" then some none
+  else if w.startsWith "u:" then (bytesOfHex (w.drop 2).toString).map some
+  else none
+
 def field? (w : String) : Option Ser.Field :=
   match w.splitOn ":" with
+  | ["s1", v] => do let i ← int? v; if -2 ^ 7 ≤ i ∧ i < 2 ^ 7 then some (.int 1 (Ser.toUnsigned 1 i)) else none
+  | ["s2", v] => do let i ← int? v; if -2 ^ 15 ≤ i ∧ i < 2 ^ 15 then some (.int 2 (Ser.toUnsigned 2 i)) else none
+  | ["s4", v] => do let i ← int? v; if -2 ^ 31 ≤ i ∧ i < 2 ^ 31 then some (.int 4 (Ser.toUnsigned 4 i)) else none
+  | ["s8", v] => do let i ← int? v; if -2 ^ 63 ≤ i ∧ i < 2 ^ 63 then some (.int 8 (Ser.toUnsigned 8 i)) else none
+  | ["f4", h] => do let b ← bytesOfHex h; if b.length = 4 then some (.pod b) else none
+  | ["f8", h] => do let b ← bytesOfHex h; if b.length = 8 then some (.pod b) else none
   | ["i1", v] => do let n ← v.toNat?; if n < 2 ^ 8 then some (.int 1 n) else none
   | ["i2", v] => do let n ← v.toNat?; if n < 2 ^ 16 then some (.int 2 n) else none
   | ["i4", v] => do let n ← v.toNat?; if n < 2 ^ 32 then some (.int 4 n) else none
@@ -85,9 +112,84 @@ def b64Tag (s : List UInt8) (cap : Nat) : String :=
   s!"b64-pads{min pads 3}{hi}{inv}{midpad}{capt}"
 
 /-- one operation: returns new state and output lines -/
-def runOp (st : DSt) (ws0 : List String) : Option (DSt × List String) :=
+def runOp (st : DSt) (ws00 : List String) : Option (DSt × List String) := do
+  let ws0 ← splitPlace ws00
   let (ws, ref) := splitRef ws0
   match ws with
+  | ["b64.declenz", h] => do
+      let s ← bytesOfHex h
+      pure (st, [s!"B b64-cstr{if s.contains 0 then "-nul" else ""}", s!"P b64.declenz {B64.decodeLengthZ s}"])
+  | ["b64.decz", h, c] => do
+      let s ← bytesOfHex h; let cap ← c.toNat?
+      pure (st, ["B b64-cstr " ++ b64Tag (B64.cstr s) cap, showRetOut "b64.decz" (B64.decodeBufZ s cap)])
+  | ["b64.decapp", h, pre] => do
+      let s ← bytesOfHex h; let pre ← bytesOfHex pre
+      pure (st, ["B b64-append " ++ b64Tag s (B64.decodeLength s), showRetOut "b64.decapp" (B64.decodeVecOnto pre s)])
+  | ["des.check", n] => do
+      let d ← st.des; let n ← u64? n
+      if toString n ≠ (ws.getD 1 "") then none else
+      let width := Ser.checkSizeW d.data.length d.pos n
+      pure (st, [s!"B des-check-{if n ≥ 2 ^ 63 then "huge" else "small"}",
+                 s!"P des check={if d.check n then 1 else 0} pos={d.pos} size={d.data.length}"]
+                ++ (if width = d.check n then [] else ["P model-width-disagrees des.check"]))
+  | ["ser.big", n] => do
+      let s ← st.ser; let n ← u64? n
+      if toString n ≠ (ws.getD 1 "") ∨ !s.raw ∨ n ≤ s.cap then none else
+      pure (st, ["B ser-big", s!"P ser ret=0 pos={s.pos} mem={hexOfBytes s.mem}"])
+  | ["crc32.chain", a, b, seed] => do
+      let a ← bytesOfHex a; let b ← bytesOfHex b; let s ← seed.toNat?
+      if s ≥ 2 ^ 32 then none else
+      let sd := UInt32.ofNat s
+      pure (st, [s!"B crc-chain-{min a.length 3}-{min b.length 3}",
+                 s!"P crc32.chain whole={Spec.crc32 (a ++ b) sd} chained={Crc.crc32 b (~~~ (Crc.crc32 a sd))} naive={Crc.crc32 b (Crc.crc32 a sd)}"])
+  | ["crc16.chain", a, b, seed] => do
+      let a ← bytesOfHex a; let b ← bytesOfHex b; let s ← seed.toNat?
+      if s ≥ 65536 then none else
+      let sd := UInt16.ofNat s
+      pure (st, [s!"B crc-chain-{min a.length 3}-{min b.length 3}",
+                 s!"P crc16.chain whole={Spec.crc16 (a ++ b) sd} chained={Crc.crc16 b (Crc.crc16 a sd)}"])
+  | ["url.host", h] => do
+      let s ← bytesOfHex h
+      let (ok, r) := Url.parseHost s
+      let colon := (s.reverse.takeWhile (· ≠ 58)).reverse
+      let pv := Url.digitsVal ((colon.dropWhile Url.isSpace).dropWhile (fun c => c = 45 ∨ c = 43) |>.takeWhile Url.isDigit)
+      let t := if !s.contains 58 then "noport" else if pv < 65536 then "port-fits" else if pv < 2 ^ 31 then "port-wraps16"
+               else if pv = 2 ^ 31 then "port-2^31" else "port-over-int"
+      pure (st, [s!"B url-host-{if ok then "ok" else "fail"} url-{t}",
+                 s!"P url.host ret={if ok then 1 else 0} user={hexOfBytes r.user} pw={hexOfBytes r.password} host={hexOfBytes r.host} port={r.port} str={hexOfBytes (Url.hostToString r)}"])
+  | ["url.mkhost", u, pw, h, port] => do
+      let u ← bytesOfHex u; let pw ← bytesOfHex pw; let h ← bytesOfHex h; let port ← port.toNat?
+      if port ≥ 65536 then none else
+      let hv : Url.Host := ⟨u, pw, h, port⟩
+      let t := Url.hostToString hv
+      let same := Url.parseHost t = (true, hv)
+      pure (st, [s!"B url-mkhost-{if same then "rt" else "nort"}", s!"P url.mkhost str={hexOfBytes t} rt={if same then 1 else 0}"])
+  | "md5.seq" :: steps => do
+      if steps.isEmpty then none else
+      let steps ← steps.mapM md5Step?
+      -- walk the script with the object model, printing what the implementation's child process reports
+      let rec go (o : Md5.Obj) : List Md5.Step → String
+        | [] => " end=returned"
+        | some d :: r => match o.update Spec.md5Params d with
+            | .ok o' => " u" ++ go o' r
+            | _ => " end=assert"
+        | none :: r => match o.finish Spec.md5Params with
+            | .ok (dg, o') => " " ++ hexOfBytes dg ++ go o' r
+            | _ => " end=assert"
+      let (_, ab) := Md5.runScript Spec.md5Params (Md5.Obj.new Spec.md5Params) steps
+      pure (st, [s!"B md5-seq-{if ab then "abort" else "clean"}", "P md5.seq" ++ go (Md5.Obj.new Spec.md5Params) steps])
+  | "aes.seq" :: k1 :: k2 :: blks => do
+      let k1 ← bytesOfHex k1; let k2 ← bytesOfHex k2
+      if ¬ ((k1.length = 16 ∨ k1.isEmpty) ∧ (k2.length = 16 ∨ k2.isEmpty) ∧ ¬ (k1.isEmpty ∧ k2.isEmpty)) ∨ blks.isEmpty then none else
+      let blks ← blks.mapM block16?
+      let o := Aes.Obj.new Aes.gen k1
+      let o := if k2.isEmpty then o else o.setKey Aes.gen k2
+      let key := if k2.isEmpty then k1 else k2
+      let outs := blks.map (fun b =>
+        let ct := Spec.aesCipher key b
+        let m := o.cipher Aes.gen b
+        hexOfBytes ct ++ (if o.invCipher Aes.gen ct = b ∧ m = ct then "+" else "!"))
+      pure (st, [s!"B aes-seq-{if k1.isEmpty then "nullctor" else if k2.isEmpty then "ctor" else "rekey"}", "P aes.seq " ++ " ".intercalate outs])
   -- ---------------------------------------------------------------- Base64
   | ["b64.enc", h] => do
       let x ← bytesOfHex h
@@ -195,37 +297,37 @@ def runOp (st : DSt) (ws0 : List String) : Option (DSt × List String) :=
       | .oob w => pure (st, [s!"P des OOB {w}"])
       | _ => pure (st, ["P des ?"])
   | ["des.bytes", n] => do
-      let d ← st.des; let n ← n.toNat?
-      if n > 4096 then none else
+      let d ← st.des; let n ← u64? n
+      if toString n ≠ (ws.getD 1 "") ∨ (n > 4096 ∧ n ≤ d.data.length) then none else
       match d.fetchRaw n with
       | .ok (some v, d') => pure ({ st with des := some d' }, [s!"P des ret=1 val={hexOfBytes v} pos={d'.pos}"])
       | .ok (none, d') => pure ({ st with des := some d' }, [s!"P des ret=0 val=- pos={d'.pos}"])
       | .oob w => pure (st, [s!"P des OOB {w}"])
       | _ => pure (st, ["P des ?"])
   | ["des.nocopy", n] => do
-      let d ← st.des; let n ← n.toNat?
-      if n > 4096 then none else
+      let d ← st.des; let n ← u64? n
+      if toString n ≠ (ws.getD 1 "") ∨ (n > 4096 ∧ n ≤ d.data.length) then none else
       match d.fetchRaw n with
       | .ok (some v, d') => pure ({ st with des := some d' }, [s!"P des ret=1 val={hexOfBytes v} pos={d'.pos}"])
       | .ok (none, d') => pure ({ st with des := some d' }, [s!"P des ret=0 val=- pos={d'.pos}"])
       | .oob w => pure (st, [s!"P des OOB {w}"])
       | _ => pure (st, ["P des ?"])
   | ["des.pod", n] => do
-      let d ← st.des; let n ← n.toNat?
-      if n > 4096 then none else
+      let d ← st.des; let n ← u64? n
+      if toString n ≠ (ws.getD 1 "") ∨ (n > 4096 ∧ n ≤ d.data.length) then none else
       match d.fetchPOD n with
       | .ok (some v, d') => pure ({ st with des := some d' }, [s!"P des ret=1 val={hexOfBytes v} pos={d'.pos}"])
       | .ok (none, d') => pure ({ st with des := some d' }, [s!"P des ret=0 val=- pos={d'.pos}"])
       | .oob w => pure (st, [s!"P des OOB {w}"])
       | _ => pure (st, ["P des ?"])
   | ["des.skip", n] => do
-      let d ← st.des; let n ← n.toNat?
-      if n ≥ 2 ^ 62 then none else
+      let d ← st.des; let n ← u64? n
+      if toString n ≠ (ws.getD 1 "") then none else
       let (b, d') := d.skip n
       pure ({ st with des := some d' }, [s!"P des ret={if b then 1 else 0} val=- pos={d'.pos}"])
   | ["des.setpos", n] => do
-      let d ← st.des; let n ← n.toNat?
-      if n ≥ 2 ^ 62 then none else
+      let d ← st.des; let n ← u64? n
+      if toString n ≠ (ws.getD 1 "") then none else
       let (b, d') := d.setPos n
       pure ({ st with des := some d' }, [s!"P des ret={if b then 1 else 0} val=- pos={d'.pos}"])
   | ["des.endian", e] => do
